@@ -41,13 +41,21 @@ type c15Req struct {
 }
 
 type c15Action struct {
-	Kind string `json:"kind"` // delete | remove | none
+	Kind string `json:"kind"` // delete | remove | none | ghost (delete ghost object number cl)
 	Cl   int    `json:"cl"`
 	Eps  []int  `json:"eps"` // remove: endpoints taken out of the server list
 }
 
+// an UpstreamCluster object whose name or server names collide with an admitted cluster: the sync
+// handler must reject it, and deleting it must not touch the owner of the name
+type c15Ghost struct {
+	Name    string   `json:"name"`
+	Aliases []string `json:"aliases"`
+}
+
 type c15Case struct {
 	Clusters []c15Cluster `json:"clusters"`
+	Ghosts   []c15Ghost   `json:"ghosts"`
 	Reqs     []c15Req     `json:"reqs"`
 	Action   c15Action    `json:"action"`
 	After    []c15Req     `json:"after"`
@@ -189,6 +197,22 @@ func runScenario(c c15Case) interface{} {
 		}
 		must(g.apply(object(ci, nil)))
 	}
+	// ghost objects arrive after the clusters they collide with (each with an upstream of its own)
+	var ghostStubs []*stubUp
+	for _, gh := range c.Ghosts {
+		s := newStub(1000 + len(ghostStubs))
+		ghostStubs = append(ghostStubs, s)
+		o := clusterObject(gh.Name, []serverSpec{{URL: s.url}}, [][]string{{s.url}})
+		o.Spec.SecureServing.ServerNames = gh.Aliases
+		_ = g.apply(o)
+	}
+	defer func() {
+		g.cleanup(ghostStubs, false)
+		for _, s := range ghostStubs {
+			s.srv.CloseClientConnections()
+			s.srv.Close()
+		}
+	}()
 	// the objects of before the removal, and readiness
 	infos := make([]*clusters.ClusterInfo, len(c.Clusters))
 	einfos := make([][]*clusters.EndpointInfo, len(c.Clusters))
@@ -329,6 +353,8 @@ func runScenario(c c15Case) interface{} {
 	switch c.Action.Kind {
 	case "delete":
 		must(g.remove(c.Clusters[c.Action.Cl].Name))
+	case "ghost":
+		must(g.remove(c.Ghosts[c.Action.Cl].Name))
 	case "remove":
 		skip := map[int]bool{}
 		for _, e := range c.Action.Eps {
